@@ -352,6 +352,7 @@ class Evaluator:
         self._depth = 0
         self.unknown_names: List[Tuple[str, str, int]] = []
         self.exact_types: Dict[T, str] = {}  # receiver term -> exactly this class
+        self.call_env: Dict[int, list] = {}   # call term uid -> [(frame, env vars at the call)]
 
     # ----------------------------------------------------------------- events
     def emit(self, frame: Frame, kind: str, line: int, data):
@@ -966,10 +967,40 @@ class Evaluator:
                         return r
         t = call(f, *args, *kws)
         self.note_line(t, line)
+        self._snapshot_closures(t, f, args)
         self.emit(fr, "call", line, t)
         if self.open_transforms and self._depth < self.MAX_INLINE_DEPTH:
             self._open_transform(fr, t, line)
         return t
+
+    def _snapshot_closures(self, t: T, f: T, args: List[T]):
+        """Closures are late-binding: a body handed to scan / vmap / jvp runs with the values its
+        free variables have *at this call*.  Remember them so that rules re-opening the body later
+        do not see subsequent rebinding of those variables."""
+        if t.uid in self.call_env:
+            return
+        cands = [f] + list(args)
+        clos = []
+        for c in cands:
+            c2 = transparent(c)
+            if c2.op == "closure":
+                clos.append(c2)
+            elif c2.op == "call":
+                for a in c2.args:
+                    a2 = transparent(a) if isinstance(a, T) else None
+                    if a2 is not None and a2.op == "closure":
+                        clos.append(a2)
+        if not clos:
+            return
+        snap = []
+        seen = set()
+        for c in clos:
+            fr_ = self.closures[c.args[0]].frame
+            while fr_ is not None and id(fr_) not in seen:
+                seen.add(id(fr_))
+                snap.append((fr_, dict(fr_.env.vars)))
+                fr_ = fr_.parent
+        self.call_env[t.uid] = snap
 
     open_transforms = False
     inline_policy = None  # callable(callee FuncInfo, receiver class, frame) -> bool
@@ -1110,12 +1141,26 @@ class Evaluator:
         self.emit(fr, "exit_closure", line, (clo.name, r))
         return r
 
-    def open_closure(self, f: T, args: List[T], line: int = 0, fr: Optional[Frame] = None) -> T:
-        """Evaluate closure f on given argument terms (used by rules to open
-        scan / vmap bodies)."""
+    def open_closure(self, f: T, args: List[T], line: int = 0, fr: Optional[Frame] = None,
+                     at_call: Optional[T] = None) -> T:
+        """Evaluate closure f on given argument terms (used by rules to open scan / vmap bodies).
+        `at_call`: the call term the closure was handed to; its free variables are then read as
+        they were at that call."""
         clo = self.closures[f.args[0]]
         frame = fr or clo.frame
-        r = self.inline_closure(frame, f, list(args), [], line or getattr(clo.node, "lineno", 0))
+        snap = self.call_env.get(at_call.uid) if at_call is not None else None
+        saved = []
+        if snap:
+            for fr_, vars_ in snap:
+                saved.append((fr_, fr_.env))
+                e2 = Env(vars_)
+                fr_.env = e2
+        n_events = len(self.events)
+        try:
+            r = self.inline_closure(frame, f, list(args), [], line or getattr(clo.node, "lineno", 0))
+        finally:
+            for fr_, env_ in saved:
+                fr_.env = env_
         if r is None:
             raise AnalysisError(f"cannot open closure {clo.name} at line {line}")
         return r
